@@ -274,19 +274,33 @@ done:
 /* xcopy <nm> (<code> <len> <seed>)*nm <k> <opt>*k : k transforms with copy options on ONE
  * reused TurboJPEG transformer; R: the COM/APPn segments of each output (the encoder's own
  * JFIF APP0 excluded), transforms separated by "|" */
-static void print_extra(int code, const unsigned char *p, size_t len, void *u)
+typedef struct { int first_jfif; int n; int code[64]; size_t len[64]; unsigned long long h[64]; } extra_t;
+static void collect_extra(int code, const unsigned char *p, size_t len, void *u)
 {
-  int *first_jfif = (int *)u;
+  extra_t *x = (extra_t *)u;
   if (code == 0xFE || (code >= 0xE0 && code <= 0xEF)) {
-    if (code == 0xE0 && len >= 5 && !memcmp(p, "JFIF", 5) && !*first_jfif) { *first_jfif = 1; return; }
+    if (code == 0xE0 && len >= 5 && !memcmp(p, "JFIF", 5) && !x->first_jfif) { x->first_jfif = 1; return; }
     printf(" %d:%zu:%llu", code, len, fnv(p, len));
+    if (x->n < 64) { x->code[x->n] = code; x->len[x->n] = len; x->h[x->n] = fnv(p, len); x->n++; }
+  }
+}
+static int documented_keep(int opt, int code)
+{
+  switch (opt) {
+  case 0: return 0;
+  case 1: return code == 0xFE;
+  case 2: return 1;
+  case 3: return code != 0xE2;
+  default: return code == 0xE2;
   }
 }
 static int op_xcopy(toks_t *t)
 {
-  int nm = (int)tl(t, 1), i, k, at;
+  int nm = (int)tl(t, 1), i, k, at, bad = 0;
   struct jpeg_compress_struct c; my_err_t e;
   unsigned char *src = NULL, *buf; unsigned long srcsize = 0;
+  int scode[64]; size_t slen[64]; unsigned long long sh[64];
+  char why[160] = "";
   tjhandle h;
   c.err = my_err_init(&e);
   jpeg_create_compress(&c);
@@ -296,10 +310,11 @@ static int op_xcopy(toks_t *t)
   jpeg_set_defaults(&c);
   jpeg_start_compress(&c, TRUE);
   buf = (unsigned char *)malloc(70000);
-  for (i = 0; i < nm; i++) {
+  for (i = 0; i < nm && i < 64; i++) {
     int code = (int)tl(t, 2 + i * 3); size_t len = (size_t)tl(t, 3 + i * 3), j; unsigned long long sd = (unsigned long long)tll(t, 4 + i * 3);
     for (j = 0; j < len; j++) buf[j] = gen_byte(sd, j);
     jpeg_write_marker(&c, code, buf, (unsigned int)len);
+    scode[i] = code; slen[i] = len; sh[i] = fnv(buf, len);
   }
   free(buf);
   { unsigned char row[16]; JSAMPROW rp = row; memset(row, 100, 16); for (i = 0; i < 16; i++) jpeg_write_scanlines(&c, &rp, 1); }
@@ -309,16 +324,30 @@ static int op_xcopy(toks_t *t)
   h = tj3Init(TJINIT_TRANSFORM);
   printf("R ok");
   for (i = 0; i < k; i++) {
-    int opt = (int)tl(t, at + 1 + i), fj = 0;
-    unsigned char *dst = NULL; size_t dsize = 0; tjtransform xf;
+    int opt = (int)tl(t, at + 1 + i), j, q = 0;
+    unsigned char *dst = NULL; size_t dsize = 0; tjtransform xf; extra_t x;
     memset(&xf, 0, sizeof(xf)); xf.op = TJXOP_NONE;
+    memset(&x, 0, sizeof(x));
     tj3Set(h, TJPARAM_SAVEMARKERS, opt);
-    if (tj3Transform(h, src, srcsize, 1, &dst, &dsize, &xf) < 0) printf(" xerr");
-    else walk_segments(dst, dsize, print_extra, &fj);
+    if (tj3Transform(h, src, srcsize, 1, &dst, &dsize, &xf) < 0) { printf(" xerr"); bad = 1; snprintf(why, sizeof(why), "transform %d failed: %s", i, tj3GetErrorStr(h)); }
+    else {
+      walk_segments(dst, dsize, collect_extra, &x);
+      /* oracle: exactly the documented subset of the source markers, in source order */
+      for (j = 0; j < nm && j < 64; j++) {
+        if (!documented_keep(opt, scode[j])) continue;
+        if (q >= x.n || x.code[q] != scode[j] || x.len[q] != slen[j] || x.h[q] != sh[j]) {
+          if (!bad) snprintf(why, sizeof(why), "transform %d (copy option %d): source marker %d (0x%X) missing or altered in the output", i, opt, j, scode[j]);
+          bad = 1; break;
+        }
+        q++;
+      }
+      if (!bad && q != x.n) { bad = 1; snprintf(why, sizeof(why), "transform %d (copy option %d): output carries a marker 0x%X the option does not select", i, opt, x.code[q]); }
+    }
     printf(" |");
     tj3Free(dst);
   }
   printf("\n");
+  if (bad) printf("O fail xcopy %s\n", why); else printf("O ok\n");
   tj3Destroy(h);
   free(src);
   return 1;
